@@ -595,6 +595,24 @@ def oracle_c09(tr, sc):
         # progress: first start times never go back
         if nxt[0]['t'] < atts[0]['t']:
             V('R3_progress', 'controller_nonMPI.run', f'block {b + 1} starts at {nxt[0]["t"]!r} before block {b} ({atts[0]["t"]!r})')
+    # R7: with overwrite_to_reach_Tend (the default) the step-size control is overruled near the final time: the run ends at
+    #     Tend, up to the documented slack (the cap is never below dt_initial, so at most num_procs*dt_initial beyond)
+    spread = {'overwrite_to_reach_Tend': True, **(_cc_params(sc, 'SpreadStepSizesBlockwise') or {})}
+    if ad is not None and spread['overwrite_to_reach_Tend'] and tr.exc is None:
+        acc = [a for a in ctx.attempts if a.get('post') and a.get('accepted')]
+        if acc:
+            last = max(acc, key=lambda a: (a['block'], a['slot']))
+            Tend = getattr(tr, 'Tend', cfg['run']['Tend'])
+            dt_initial = cfg['level']['dt']
+            over = last['t'] + last['dt'] - Tend
+            # the last block starts at t_b with n_b steps of size min(proposal, max((Tend - t_b)/size, dt_initial)), n_b <= size:
+            # it ends no later than max(Tend, t_b + n_b*dt_initial)
+            blk = [a for a in ctx.attempts if a['block'] == last['block']]
+            t_b = min(a['t'] for a in blk)
+            allowed = max(0.0, t_b + len(blk) * dt_initial - Tend)
+            if over > allowed * (1 + 1e-9) + 64 * EPS * max(abs(Tend), 1.0):
+                V('R7_reach_Tend', 'SpreadStepSizesBlockwiseNonMPI.prepare_next_block', f'overwrite_to_reach_Tend is on, but the run ends at {last["t"] + last["dt"]!r}, {over:.3e} beyond Tend={Tend!r}; the last block starts at {t_b!r} with {len(blk)} step(s), documented slack max(0, t_b + n*dt_initial - Tend) = {allowed:.3e}')
+            res.probe('reach_Tend_checked')
     # R4: accepted steps meet the tolerance unless the budget was exhausted
     if ad is not None:
         e_tol = ad[1]['e_tol']
